@@ -699,10 +699,33 @@ theorem sanitize_full {ndim : Nat} {items its : List Item} (h : sanitize ndim it
         · cases h
         · cases h; simp [hlen]
 
+theorem stripEmptyEllipsis_of_ne (ndim : Nat) (items : List Item) (h : items.length ≠ ndim + 1 ∨ countEllipsis items ≠ 1) :
+    stripEmptyEllipsis ndim items = items := by
+  simp only [stripEmptyEllipsis]
+  rw [if_neg]
+  intro hc
+  rcases h with h | h
+  · exact h hc.1
+  · exact h hc.2
+
+theorem stripEmptyEllipsis_any_none (ndim : Nat) (items : List Item) :
+    (stripEmptyEllipsis ndim items).any (· == .none) = items.any (· == .none) := by
+  have gen : ∀ l : List Item, (l.filter (· != .ellipsis)).any (· == .none) = l.any (· == .none) := by
+    intro l
+    induction l with
+    | nil => rfl
+    | cons it its ih =>
+      cases it <;> simp_all [List.filter_cons]
+  simp only [stripEmptyEllipsis]
+  split
+  · exact gen items
+  · rfl
+
 theorem normItems_isInt {shape : List Nat} {items its : List Item}
     (h : normItems shape items = .ok its) (hlen : items.length = shape.length)
     (hne : countEllipsis items = 0) : its.map Item.isInt = items.map Item.isInt := by
   simp only [normItems, bind, Except.bind] at h
+  rw [stripEmptyEllipsis_of_ne _ _ (Or.inl (by omega))] at h
   split at h
   · cases h
   · rename_i san hs
